@@ -29,7 +29,7 @@ def Wrap.isPlain : Wrap → Bool
   | _ => false
 
 def wrapOf : Op → Wrap
-  | .get _ | .getitem _ | .contains _ | .len | .keys | .items | .values | .iter => .accessed
+  | .get _ _ | .getitem _ | .contains _ | .len | .keys | .items | .values | .iter => .accessed
   | .peekFlash _ => .accessed
   | .getCsrf _ => .accessed          -- may turn into a modification when no token is stored, see `modifies`
   | .changed => .plain
@@ -73,7 +73,7 @@ def apply (op : Op) (d : Data) : Data :=
 /-- what the call returns -/
 def result (op : Op) (d : Data) : Res :=
   match op with
-  | .get k => .val ((dget d k).getD .null)
+  | .get k dflt => .val ((dget d k).getD (dflt.getD .null))
   | .getitem k => match dget d k with | some v => .val v | none => .keyError
   | .contains k => .bool (dhas d k)
   | .len => .nat d.length
